@@ -2,10 +2,10 @@ SPECIFICATION Spec
 CONSTANTS
   DeliverPhase = "end"
   ImrVals <- ImrSmall
-  MaxDepth = 7
+  MaxDepth <- Unlimited
   MaxNest = 2
-  PcMod = 0
-  AckOnReturn = FALSE
+  PcMod = 2
+  AckOnReturn = TRUE
   RecordActs = FALSE
 INVARIANT DeliverOnlyIfEnabled
 INVARIANT FrameOnEntry
